@@ -19,6 +19,7 @@ mod engine;
 #[cfg(feature = "capi")]
 mod ffi;
 mod holders;
+mod transit;
 mod compose;
 #[cfg(feature = "native")]
 mod isolate;
